@@ -17,7 +17,7 @@ def check_one(op, kind, i):
         return {"ok": bool(r["writes"]), "outcome": n_api.summary(r)}
     ts = n_api.ts_of(dec(i["now"]))
     idb, keyb = dec(i["dev_id"]), dec(i["dev_key"])
-    login = spec.login1_frame(ts, keyb) if kind == 1 else spec.login2_frame(ts, idb)
+    login = spec.login1_frame(ts, keyb) if (kind == 1 and op != "stop") else spec.login2_frame(ts, idb)
     ok = r["writes"][0] == login
     for w in r["writes"][1:]:
         ok = ok and w[8:12] == R1[8:12] and w[24:28] == ts and w[40:43] == idb
@@ -78,7 +78,7 @@ def run_case(c):
                     n += 1
                     ws = a._writer.log
                     ts = spec.timestamp_of(now)
-                    login = spec.login1_frame(ts, x["key"]) if x["kind"] == 1 else spec.login2_frame(ts, x["id"])
+                    login = spec.login1_frame(ts, x["key"]) if (x["kind"] == 1 and op != "stop") else spec.login2_frame(ts, x["id"])
                     ok = bool(ws) and ws[0] == login
                     for w in ws[1:]:
                         ok = ok and w[8:12] == R1[8:12] and w[24:28] == ts and w[40:43] == x["id"]
